@@ -599,9 +599,14 @@ class FuncAdd(ValueFunc):
             return result
 
         if a.isDate() and b.isNumerical():
-            return ValueDate(
-                to_date(to_oa_date(a.value) + args.getAsDecimal("b").value)
-            )
+            try:
+                return ValueDate(
+                    to_date(to_oa_date(a.value) + args.getAsDecimal("b").value)
+                )
+            except ValueError:
+                raise CklRuntimeError(
+                    ValueString("ERROR"), "Date out of range", pos
+                )
 
         if (a.isString() and b.isAtomic()) or (a.isAtomic() and b.isString()):
             return ValueString(a.asString().value + b.asString().value)
@@ -4014,9 +4019,14 @@ class FuncSub(ValueFunc):
             if b.isDate():
                 diff = to_oa_date(a.value) - to_oa_date(b.value)
                 return ValueInt(math.trunc(diff))
-            return ValueDate(
-                to_date(to_oa_date(a.value) - args.getAsDecimal("b").value)
-            )
+            try:
+                return ValueDate(
+                    to_date(to_oa_date(a.value) - args.getAsDecimal("b").value)
+                )
+            except ValueError:
+                raise CklRuntimeError(
+                    ValueString("ERROR"), "Date out of range", pos
+                )
 
         if a.isNull() or b.isNull():
             return NULL
